@@ -946,6 +946,23 @@ fn hash_case(case: &Value) -> Result<String, String> {
             let (ra, rb) = (root_of_list(&a), root_of_list(&b));
             if (a == b) == (ra == rb) { Ok("roots equal iff lists equal".into()) } else { Err(format!("transaction lists {a:?} and {b:?} have the same tx_root {}: a header root does not bind the list", hex8(&ra))) }
         },
+        // every transaction of a long list is covered by the root: altering one (same length) or cutting the tail changes it
+        "txedit" => {
+            let n = case["n"].as_u64().ok_or("n")? as usize;
+            let i = case["i"].as_u64().ok_or("i")? as usize;
+            let long_tx = |j: usize, alt: bool| Transaction::Put { key: format!("k{j}"), data: vec![j as u8, u8::from(alt)] };
+            let base: Vec<Transaction> = (0..n).map(|j| long_tx(j, false)).collect();
+            let edited: Vec<Transaction> = match case["op"].as_str().unwrap_or("") {
+                "alter" => (0..n).map(|j| long_tx(j, j == i)).collect(),
+                "cut" => base[..i].to_vec(),
+                "swap" => { let mut v = base.clone(); v.swap(i, (i + 1) % n); v },
+                o => return Err(format!("op {o}")),
+            };
+            if edited == base { return Ok("not applicable".into()); }
+            let (ra, rb) = (Block::new(BlockHeader::default(), base).compute_tx_root(), Block::new(BlockHeader::default(), edited).compute_tx_root());
+            if ra != rb { Ok("root changes".into()) } else { Err(format!("a block of {n} transactions and the same block with transaction {i} {} have the same tx_root {}: the root does not cover that transaction",
+                match case["op"].as_str().unwrap_or("") { "alter" => "altered", "cut" => "and all later ones removed", _ => "swapped with its successor" }, hex8(&ra))) }
+        },
         // every hashed header field enters hash() and signing_bytes()
         "field" => {
             let h0 = base_header();
@@ -984,6 +1001,7 @@ fn run_hash(rep: &mut Report, tier: Tier) {
     let mut cases = vec![];
     for l in &lists { for r in ["computed", "zero", "flip", "flip_last", "other"] { cases.push((json!({"kind": "txroot", "txs": l, "root": r}), !l.is_empty())); } }
     for (i, a) in lists.iter().enumerate() { for b in &lists[i + 1..] { cases.push((json!({"kind": "txinj", "a": a, "b": b}), true)); } }
+    for n in 1..=(if tier == Tier::Thorough { 40usize } else { 18 }) { for i in 0..n { for op in ["alter", "cut", "swap"] { cases.push((json!({"kind": "txedit", "n": n, "i": i, "op": op}), n > 4)); } } }
     for f in FIELDS { if f != "signature" { for op in FIELD_OPS { cases.push((json!({"kind": "field", "field": f, "op": op}), true)); } } }
     for a in 0..8u64 { for b in a + 1..8 { cases.push((json!({"kind": "hdrinj", "a": a, "b": b}), true)); } }
     for (c, nt) in &cases {
@@ -1009,7 +1027,7 @@ x every block incl. genesis x (9 header fields x flip/flip_hi/zero/max/swap-with
 commit.atomic: pre-store with 2 keys + relational table (2 rows) + embedding, 0..{} committed blocks, scripts over 1 workspace (8 endings x 5 operation sets x max_txs default/1) \
 and all interleavings of 2 workspaces (3x3 endings: commit, rollback, commit with own key unregistered; {} operation sets){}; \
 replica.determinism: all sequences of 1..{} blocks over 8 block kinds (13 transactions of all 10 kinds) plus {}-block sequences over {} kinds on leader + {} replica(s), all insertion orders of 2..{} keys (direct put and Put transactions), 27x27 store states; \
-hash.binding: all tx lists of length <= {} over 3 txs x 5 header roots, all pairs of those lists, 8 hashed header fields x 5 ops, 8 headers pairwise",
+hash.binding: all tx lists of length <= {} over 3 txs x 5 header roots, all pairs of those lists, blocks of 1..18 (thorough: 40) distinct transactions x every position altered / cut from / swapped, 8 hashed header fields x 5 ops, 8 headers pairwise",
             if t { 4 } else { 2 }, if t { 5 } else { 4 }, if t { 4 } else { 3 }, if t { ", 3 chains of 5-6 blocks" } else { "" },
             if t { "; plus 300 seeded pairs of simultaneous effective mutations per chain (not exhaustive)" } else { "" },
             if t { 2 } else { 1 }, if t { "5x2" } else { "2x2" },
